@@ -50,6 +50,10 @@ CLAIMED = {
          "Props/C19.v: C19_case1, C19_same_level, C19_finer_level, C19_outside_refused. PlotfileCooker[field](x,y,z) is queried at interior cell centres of every level (stored value within 1e-9), other lattice points and outside points on generated 3D plotfiles with shifted origins and anisotropic dyadic cells, for name / int / list / slice selections; a spy on map_coordinates checks that the box read and the local index are the model's.",
          "scipy map_coordinates (cubic spline) is an oracle: node value at integral coordinates is trusted and checked numerically; float comparisons are modelled on the integer half-cell lattice (exact on dyadic geometry); CASE 2 (between boxes) is outside the model; two defects repaired by fix: commits (origin ignored, slice selections).",
          "DESIGN.md section 3 C19"),
+ 'C06': ("Coq proof (what every combine worker writes for one box pair, for any list of pairs in any order and for two files in lock step; contents of a combined box; no output for different meshes) + byte-for-byte directory correspondence in all three modes",
+         "Props/C06.v: C06_pair, C06_any_layout, C06_lock_step, C06_box_contents, C06_refuses. The executable model Writers.Combine.combine_tool (mode choice, per-file tasks, offset re-mapping, lock-step level-header rewrite, global header) is compared byte for byte with the output of combine on generated pairs with identical / permuted / unrelated binary layouts and every selection form; the independent reader decides the property (fields, bit-identical boxes, min/max rows, taste incl. box coordinates); pairs on different meshes must be refused before any write.",
+         "partial proof: mode choice, offset re-mapping and header rewriting are in the executable model and tied to the code by correspondence only; np.allclose on index ranges exact below 1e5 cells; five defects repaired by fix: commits, see KNOWN_FINDINGS.txt.",
+         "DESIGN.md section 3 C06"),
 }
 PENDING_REASON = "check not built yet in this round (model and theorems planned in DESIGN.md section 3); not claimed until its check runs"
 
